@@ -12,7 +12,9 @@ import (
 )
 
 // AV is the Go image of a Value of spec/Values.tla.
-//   null | bool b | num (int?, n/d dyadic) | str s | seq e | map (ordered keys)
+//
+//	null | bool b | num (int?, n/d dyadic) | str s | seq e | map (ordered keys)
+//
 // K can also be "foreign" (alpha met something outside the model domain): never equal to anything.
 type AV struct {
 	K   string
